@@ -34,9 +34,40 @@ ASSUMPTIONS = [
 ]
 
 
+def sweep(spec):
+    """A parameter sweep that keeps only the numbers: the same scenario at other station voltages,
+    each simulation built, run, analysed and thrown away before the next one is built."""
+    import gc
+
+    shifts = [0, 32, -88, 69, 12, 152, -40, 7]
+    for k in range(int(spec["sweep"])):
+        var = dict(spec, stations=[dict(s, voltage=float(s["voltage"]) + shifts[(k + j) % len(shifts)]) for j, s in enumerate(spec["stations"])], decoy=None, peek=False, handed_down=False)
+        h = sc.build_sim(var)
+        sc.run_sim(h)
+        R = np.array(h.sim.charging_rates, dtype=float)
+        V = [s["voltage"] for s in var["stations"]]
+        want = [math.fsum(V[i] * R[i, t] for i in range(R.shape[0])) / 1000.0 for t in range(R.shape[1])]
+        got = acnsim.aggregate_power(h.sim)
+        require(np.allclose(got, want, rtol=1e-10, atol=1e-12), "aggregate_power", lambda: "run %d of a sweep over station voltages %r: aggregate_power %r, voltage-weighted sums %r" % (k, V, list(got), want))
+        agg = acnsim.aggregate_current(h.sim)
+        require(np.allclose(agg, R.sum(axis=0), rtol=1e-12, atol=1e-12), "aggregate_current", "sweep: aggregate_current differs from the column sums")
+        tot = math.fsum(ev.energy_delivered for ev in h.evs.values())
+        require(abs(acnsim.total_energy_delivered(h.sim) - tot) <= 1e-9 * (1 + tot), "total_energy_delivered", "sweep: total differs from the sum over sessions")
+        del h, R, got, agg
+        gc.collect()
+
+
 def prop(spec, rec):
     m = sc.Model(spec)
     h = sc.build_sim(spec)
+    guest = None
+    if spec.get("guest"):
+        # a car that is no session of this simulation: the site operator's own vehicle, plugged into
+        # the last station (which no session uses) by hand before the run and left there
+        from acnportal.acnsim import EV, Battery
+
+        guest = EV(0, 10 ** 6, 40.0, spec["stations"][-1]["id"], "guest-car", Battery(60.0, 5.0, 7.0))
+        h.net.plugin(guest)
     if spec.get("tz"):
         h.sim.start = h.sim.start.replace(tzinfo=timezone(timedelta(hours=spec["tz"])))
     sc.run_sim(h)
@@ -129,7 +160,13 @@ def prop(spec, rec):
     require(abs(acnsim.total_energy_requested(sim) - req_tot) <= 1e-9 * (1 + req_tot), "total_energy_requested", lambda: "%r vs %r" % (acnsim.total_energy_requested(sim), req_tot))
     require(abs(acnsim.total_energy_delivered(sim) - del_tot) <= 1e-9 * (1 + del_tot), "total_energy_delivered", lambda: "%r vs %r" % (acnsim.total_energy_delivered(sim), del_tot))
     integral = math.fsum(wantp) * spec["period"] / 60.0
-    require(abs(acnsim.total_energy_delivered(sim) - integral) <= 1e-9 * (1 + integral), "total_energy_equals_power_integral", lambda: "delivered %r kWh, integral of aggregate power %r" % (acnsim.total_energy_delivered(sim), integral))
+    if guest is None:
+        require(abs(acnsim.total_energy_delivered(sim) - integral) <= 1e-9 * (1 + integral), "total_energy_equals_power_integral", lambda: "delivered %r kWh, integral of aggregate power %r" % (acnsim.total_energy_delivered(sim), integral))
+    else:
+        # the totals speak about the simulation's sessions; what the guest drew shows in the power only
+        labels.add("car_on_site_that_is_no_session")
+        if integral > del_tot + 1e-6:
+            labels.add("guest_car_drew_energy")
     if req_tot > 0:
         require(abs(acnsim.proportion_of_energy_delivered(sim) - del_tot / req_tot) <= 1e-9, "proportion_of_energy_delivered", lambda: "%r vs %r" % (acnsim.proportion_of_energy_delivered(sim), del_tot / req_tot))
     thr = spec["threshold"]
@@ -182,6 +219,10 @@ def prop(spec, rec):
         labels.add("single_phase_site")
         if any(len({v > 0 for v in c["coeffs"].values() if v != 0}) == 2 for c in spec["constraints"]):
             labels.add("single_phase_mixed_sign_constraint")
+    if spec.get("sweep"):
+        del sim, h
+        sweep(spec)
+        labels.add("sweep_of_discarded_simulations")
     nt = "mixed_voltage" in labels and "requested_not_in_network_order" in labels
     rec.case(spec, labels, nt)
 
@@ -199,6 +240,12 @@ def cases(draw):
     spec["threshold"] = draw(st.sampled_from([0.1, 0.001, 1.0, 5.0, 0.0, 0.0, -0.05]))
     spec["tz"] = draw(st.sampled_from([None, None, -8, 5.5]))
     spec["analyse"] = draw(st.sampled_from(["direct", "direct", "json_string", "json_path", "json_buffer", "deepcopy"]))
+    # (not on the slow-motion scenarios: ten runs of a couple of thousand periods each)
+    spec["sweep"] = draw(st.sampled_from([0] * 5 + [6, 10])) if spec.get("stretch", 1) == 1 else 0
+    used = {x["station"] for x in spec["sessions"]}
+    if spec["stations"][-1]["id"] not in used and not spec.get("early_unplugs") and draw(st.booleans()):
+        spec["guest"] = True
+        spec["analyse"] = "direct"
     if names and draw(st.integers(0, 2)) == 0:
         spec["retune"] = {"index": draw(st.integers(0, 4)), "how": draw(st.sampled_from(["limit", "limit", "remove"])), "factor": draw(st.sampled_from([0.5, 2.0, 1.0]))}
     if draw(st.integers(0, 3)) == 0:
